@@ -70,6 +70,20 @@ def zero_cases(rng, count):
     attribute group; scattered cells and whole rows/columns (a dead separator value)."""
     out = []
     while len(out) < count:
+        if len(out) % 7 == 3:
+            # five attributes, a tree of pairs whose alphabetical clique order is NOT a running-intersection order, zeros on the
+            # alphabetically late clique (what a parameter fit that walks the cliques in a fixed order must get right)
+            inst = E.gen_instance(rng, nattr=5, max_meas=0, zeros_prob=0.0, allow_empty=True, sizes=[2, 2, 2, 2, 2])
+            cls = rng.choice([[("a", "e"), ("b", "c"), ("c", "e")], [("a", "d"), ("b", "c"), ("c", "d"), ("d", "e")], [("b", "e"), ("a", "c"), ("c", "e")],
+                              [("a", "e"), ("b", "d"), ("d", "e"), ("c", "e")]])
+            for cl in cls:
+                cl = tuple(rng.sample(cl, 2))
+                y = E.true_marginal(inst, list(cl)).reshape(-1) + np.array([rng.gauss(0, 1.0) for _ in range(4)])
+                inst["meas"].append({"proj": list(cl), "kind": "identity", "noise": 1.0, "y": [float(v) for v in y]})
+            zc = cls[-1] if rng.random() < 0.7 else rng.choice(cls)
+            inst["zeros"] = {"%s,%s" % zc: rng.sample([(0, 0), (0, 1), (1, 0), (1, 1)], rng.choice([1, 2]))}
+            out.append((inst, {"where": "measured", "shape": "tree5"}))
+            continue
         nattr = rng.choice([3, 3, 4])
         inst = E.gen_instance(rng, nattr=nattr, max_meas=4, zeros_prob=0.0, allow_empty=False,
                               kinds=["identity", "none", "total", "id+total", "prefix"])
